@@ -246,6 +246,28 @@ func intConv[T any](name string, lo, hi float64, f func(int64) T) kindConv {
 var kindConvs = []kindConv{
 	{"json.Number", func(n json.Number) (any, bool) { return n, true }},
 	{"decimal", func(n json.Number) (any, bool) { d, err := decimal128.Parse(string(n)); return d, err == nil }},
+	// the same value in another spelling: a fraction part of zeros, an exponent, a scaled coefficient
+	{"json.Number/spelled", func(n json.Number) (any, bool) {
+		t := string(n)
+		if strings.ContainsAny(t, "eE") {
+			return nil, false
+		}
+		if !strings.Contains(t, ".") {
+			return json.Number(pick([]string{t + ".0", t + "e0", t + "0E-1", t + ".000", t + "00e-2"})), true
+		}
+		return json.Number(pick([]string{t + "0", t + "e0", t + "00"})), true
+	}},
+	{"decimal/scaled", func(n json.Number) (any, bool) {
+		t := string(n)
+		if strings.ContainsAny(t, "eE") {
+			return nil, false
+		}
+		if !strings.Contains(t, ".") {
+			t += "."
+		}
+		d, err := decimal128.Parse(t + pick([]string{"0", "00", "0000"}))
+		return d, err == nil
+	}},
 	{"float64", func(n json.Number) (any, bool) {
 		f, err := strconv.ParseFloat(string(n), 64)
 		if err != nil {
